@@ -10,6 +10,7 @@ Line-protocol driver for C13 (fields separated by single spaces; byte strings in
   V root k h:blob,h:blob     VerifyProof against a raw hash->blob store   -> val:<hex> | absent | err | crash
   VK root k blob,blob        VerifyProof against blobs keyed by Keccak    -> val:<hex> | absent | err | crash
   SU k v / SG k              SecureTrie Update/Get (key hashed first)
+  CODEC k probe,probe        instance check of the codec hypothesis of proof_complete_partial on the path of k -> ok | fail
   DS item,item,...           types.DeriveSha                              -> <hex32>
   KEC data                   Keccak-256                                   -> <hex32>
   DBRESET | DBNEW            fresh trie.Database (DBNEW keeps the disk)           -> ok
@@ -130,6 +131,11 @@ def step (t : Node) (line : String) : Node × String :=
     match hx root, hx k, (splitNE blobs ",").mapM hx with
     | some root, some k, some blobs => (t, showV (verify K root (hexKey k) blobs))
     | _, _, _ => (t, "bad-op")
+  | ["CODEC", k, probes] =>
+    match hx k, (splitNE probes ",").mapM hx with
+    | some k, some probes =>
+      (t, if codecHoldsOnPath K t (hexKey k) (probes.map hexKey) then "ok" else "fail")
+    | _, _ => (t, "bad-op")
   | ["DS", items] =>
     match (splitNE items ",").mapM hx with
     | some items => (t, hexOfList (deriveSha K items))
